@@ -153,7 +153,7 @@ def run(prop, tier='quick', seed=0, repo='/repo', update_lock=False, verbose=Fal
     # ---- vacuity probes: every function has a reachable normal exit; every lemma's hypotheses are satisfiable
     vac_tasks = []
     for q, pcs in eng.reach.items():
-        for i, pc in enumerate(pcs[:4]):
+        for i, pc in enumerate(pcs):
             v = VC('%s.reach.%d' % (q.partition(':')[2], i), pc, z3.BoolVal(False), 'vacuity')
             txt, _ = solve.vc_to_smt2(v, extra)
             vac_tasks.append((v.name, txt, 'reach'))
